@@ -2322,9 +2322,8 @@ func WriteBinaryBlocks(mainLabel uint64, lbls Set, op *OutputOp, bounds dvid.Bou
 				inBlock = true
 			} else {
 				hasBackground = true // true if any non-targeted label exists
-				if len(labelIndices) == len(lbls) {
-					break
-				}
+				// can't break here because there could be multiple entries for a label in a block
+				// e.g., due to fast merge where a variety of previous labels gets set to merge label.
 			}
 		}
 		if inBlock {
